@@ -10,12 +10,15 @@ import (
 	"io"
 	"math/rand"
 	"net/http"
+	"strconv"
 	"strings"
 	"sync"
 	"time"
 
 	"verif/internal/rig"
 	"verif/internal/verdict"
+
+	"golang.org/x/net/http2/hpack"
 )
 
 type tcase struct {
@@ -335,6 +338,68 @@ func main() {
 		}(i)
 	}
 	wg.Wait()
+	// probes whose request body is still open when the answer is due (added after seeded change C15-M, which read the body
+	// first): a POST probe that has announced a body and has not sent it yet must be answered 200 "OK" at once
+	for i := 0; i < run.Pick(12, 120); i++ {
+		// (HTTP/2 only: net/http's HTTP/1.1 server reads a pending request body itself before it writes a response,
+		// so an HTTP/1.1 client that withholds an announced body waits for its own bytes on the unchanged tree too)
+		proto := "h2"
+		px := []*rig.Proxy{on, def}[i%2]
+		tag := fmt.Sprintf("C15-%d-openbody-%d", run.Seed, i)
+		c := tcase{Flag: true, Proto: proto, Method: "POST", Path: "/healthz", Headers: [][2]string{{"User-Agent", "kube-probe/1.31"}}, Family: "open-body", Body: "(withheld until the answer has arrived)"}
+		var status int
+		var body []byte
+		var rerr error
+		if proto == "h2" {
+			s, err := rig.Dial(px.Addr, []string{"h2"}, nil, nil)
+			if err != nil {
+				run.Add("dial_failed", 1)
+				continue
+			}
+			id := s.TakeStreamID()
+			f := []hpack.HeaderField{{Name: ":method", Value: "POST"}, {Name: ":scheme", Value: "https"}, {Name: ":authority", Value: "front.example"}, {Name: ":path", Value: "/healthz"},
+				{Name: "user-agent", Value: "kube-probe/1.31"}, {Name: strings.ToLower(rig.TagHeader), Value: tag}}
+			if i%4 == 0 {
+				f = append(f, hpack.HeaderField{Name: "content-length", Value: "5"})
+			}
+			if err := s.Peer.Request(id, false, f...); err != nil {
+				rerr = err
+			} else if r, ok := s.Peer.WaitResponse(id, 5*time.Second); !ok {
+				rerr = fmt.Errorf("no complete response within 5 s while the request body is open (reset=%v)", r.Reset)
+			} else {
+				status, _ = strconv.Atoi(r.Status)
+				body = r.Body
+			}
+			s.Close()
+		} else {
+			tc, err := tls.Dial("tcp", px.Addr, &tls.Config{InsecureSkipVerify: true, ServerName: "front.example", NextProtos: []string{"http/1.1"}})
+			if err != nil {
+				run.Add("dial_failed", 1)
+				continue
+			}
+			tc.SetDeadline(time.Now().Add(5 * time.Second))
+			fmt.Fprintf(tc, "POST /healthz HTTP/1.1\r\nHost: front.example\r\nUser-Agent: kube-probe/1.31\r\n%s: %s\r\nContent-Length: 5\r\n\r\n", rig.TagHeader, tag)
+			resp, err := http.ReadResponse(bufio.NewReader(tc), &http.Request{Method: "POST"})
+			if err != nil {
+				rerr = fmt.Errorf("no response within 5 s while the request body is open: %v", err)
+			} else {
+				status = resp.StatusCode
+				body, _ = io.ReadAll(io.LimitReader(resp.Body, 2))
+			}
+			tc.Close()
+		}
+		run.Eval(1)
+		run.Distinct(fmt.Sprintf("open-body|%s|%d", proto, i%4))
+		run.Add("probes_with_open_request_body", 1)
+		switch {
+		case rerr != nil:
+			run.Violation("probe-not-answered-while-its-body-is-open", c, "%s probe (POST, body announced, not sent yet): %v", proto, rerr)
+		case status != 200 || string(body) != "OK":
+			run.Violation("neither-local-nor-backend", c, "%s probe with an open request body got status %d body %q", proto, status, trunc(body))
+		case len(be.Records(tag)) != 0:
+			run.Violation("probe-also-forwarded", c, "%s probe with an open request body reached the backend", proto)
+		}
+	}
 	// late sweep: a locally answered request must not show up at the backend later either
 	for tag, c := range localTags {
 		if n := len(be.Records(tag)); n > 0 {
